@@ -189,6 +189,11 @@ def stage_oracles(ctx, tr, stage):
         from .oracles.dot import check_render
 
         st["C17"] = run_oracle(ctx, "C17.render", check_render, scfg, ctx.data.get("flow"))
+    if "C15" in act:
+        from .oracles.serial import check_roundtrip
+
+        st["C15"] = run_oracle(ctx, "C15.roundtrip", check_roundtrip, scfg,
+                               OPTS.get("serial_chain", 1))
     for extra in EXTRA_STAGE_ORACLES:
         extra(ctx, tr, stage)
 
